@@ -36,6 +36,7 @@ def go(layers, seed):
     r.options = O()
     r.options.shuffle = True
     r.options.shuffle_seed = seed
+    r.options.original_testrunner_args = ['prog', '--shuffle']
     r.options.output = Out()
     r.tests_by_layer_name = {n: unittest.TestSuite([T(i) for i in t]) for n, t in layers}
     f = Shuffle(r)
